@@ -432,3 +432,60 @@ PROPS["C10"]["jobs"] += [
     {"name": "queue-checker-over-tcp", "engine": "tcp", "prop": "C06", "args": {"n": T(150, 6000)}},
     {"name": "queue-checker-over-udp", "engine": "udp", "prop": "C08", "args": {"n": T(300, 10000)}},
 ]
+
+# ---- C17: engine written by a sub-agent (agent_out/socks), reviewed and integrated here
+PROPS["C17"] = {
+    "level": "exploration",
+    "claim": {
+        "technique": "runtime monitoring under ASan+UBSan+_GLIBCXX_ASSERTIONS with library asserts on: a harness SOCKS client, position-coded relay streams "
+                     "verified byte by byte at both ends, reply-code / command-counter / UDP header oracles; bounded-exhaustive cuts, field mutations and truncations, "
+                     "random hostile streams with >= 140 kB floods, one hostile stream per case with crash attribution",
+        "text": "Valid v4/v5 CONNECT (address, host name), BIND (with an inbound connector) and UDP ASSOCIATE negotiations are driven through the real proxy against "
+                "reachable, refusing and unresolvable harness targets with every one- and two-point cut of the negotiation bytes; relayed bytes, reply codes, "
+                "cmd_counts() and UDP header stripping/wrapping are checked. Hostile clients mutate every field of every message through its byte range, truncate at "
+                "every offset, send random bytes and keep sending >= 140 kB after bad length fields; the oracle is no crash/sanitizer report/assertion and a "
+                "well-behaved session next to or after the hostile one still passing. Holds on what was generated, nothing more.",
+        "note": "Trusts the harness SOCKS client and the sanitizers. Intra-object overruns are only visible once a flood crosses the ~135 kB connection object, hence the floods. "
+                "Host names of 1-2 characters in CONNECT requests cannot be framed by the proxy's fixed 10-byte first read and are exercised as hostile input only.",
+        "ref": "DESIGN.md 3/C17",
+    },
+    "rule": "case = one simulation with the proxy (v4 or v5) on one node, harness client / target / inbound-connector / hostile nodes around it, one shared network queue "
+            "(bandwidth 0-100 MB/s, latency 1 us-50 ms), per-pair MTU 100-9000. Job 'cuts' enumerates every 0-, 1- and 2-point cut of 11 base negotiations; 'fields' "
+            "every value 0..255 of every greeting/request field of 6 base messages (length-like fields with and without a 140-200 kB flood); 'trunc' silence or "
+            "end-of-file after every prefix of 7 base messages; 'udp' every value of every UDP request header field and every truncation of 2 base datagrams; "
+            "'valid' and 'random' sample (1-3 concurrent sessions, 1-255 methods, name lengths 3-255 (UDP 1-255), payloads 0-300 kB, write/read size patterns, "
+            "lock-step or pipelined negotiation; noise, multi-byte mutations, insert/delete, random tails, floods, random datagram sequences, third-party datagrams). "
+            "Every hostile case also runs one well-behaved session concurrently or afterwards. Non-trivial = every case (each relays data or delivers a hostile stream); "
+            "distinct = distinct case descriptors.",
+    "jobs": [
+        {"name": "cuts", "engine": "socks", "mode": "cuts"},
+        {"name": "trunc", "engine": "socks", "mode": "trunc"},
+        {"name": "udp", "engine": "socks", "mode": "udp"},
+        {"name": "fields", "engine": "socks", "mode": "fields", "args": {"n": T(4000, 0)}},   # 0 = all 16896
+        {"name": "valid", "engine": "socks", "mode": "valid", "args": {"n": T(3000, 60000)}},
+        {"name": "random", "engine": "socks", "mode": "random", "args": {"n": T(3000, 100000)}},
+    ],
+    "require": {
+        "quick": {"cut_cases": 858, "hostile_truncations": 694, "hostile_udp_field_mutations": 3072, "hostile_field_mutations": 4000,
+                  "good_sessions_passed": 12000, "good_sessions_next_to_hostile_passed": 9000, "bytes_relayed_verified": 80000000,
+                  "v4_connect_relays_completed": 700, "v5_connect_by_addr_relays_completed": 800, "connect_by_name_relays_completed": 1500,
+                  "bind_relays_completed": 1400, "udp_sessions_completed": 1200, "udp_forwards_verified": 4000, "udp_replies_verified_name_header": 2000,
+                  "udp_replies_verified_addr_header": 500, "refused_replies_verified": 1200, "unresolvable_replies_verified": 500,
+                  "relays_larger_than_proxy_buffer": 250, "counter_checks_exact": 2000, "counter_checks_interval": 6000,
+                  "hostile_floods_140k": 900, "hostile_random_streams": 1200, "hostile_udp_datagrams_sent": 3500},
+        "thorough": {"cut_cases": 858, "hostile_field_mutations": 16896, "good_sessions_passed": 150000, "bytes_relayed_verified": 1500000000,
+                     "hostile_floods_140k": 20000, "udp_forwards_verified": 60000, "bind_relays_completed": 15000,
+                     "unresolvable_replies_verified": 5000, "relays_larger_than_proxy_buffer": 4000},
+    },
+    "assumptions": [
+        "lossless network (queues without capacity limit): TCP loss recovery is C05/C06's subject, a stalled relay here would be blamed on the proxy",
+        "both relay peers close only after each has received everything the other sent; what happens to data in flight at a close is not asserted",
+        "the client stays silent between its request and the (second, for BIND) reply, as the protocol requires",
+        "UDP: client datagrams <= 1500 bytes including the SOCKS header (the relay's buffer), payloads >= 1 byte (the simulator cannot send empty datagrams), "
+        "targets answer only after the client's first datagram; datagram order is not asserted",
+        "CONNECT host names are 3-255 characters; 1-2 characters are sent as hostile input only (cannot be framed by the proxy's 10-byte first read)",
+        "names resolve to a single address; BIND requests name an address of the proxy's node (or 0.0.0.0), which is what the proxy binds to",
+        "reply codes: only the codes named in the statement are demanded (0/5/4, 90/91); a failed BIND must merely not report success",
+    ],
+    "timeout": {"quick": 900, "thorough": 7200},
+}
